@@ -105,8 +105,9 @@ fn run_distributed_piece(
     b: &Built,
     q: &dyn Query,
     req: &Aggregations,
+    limits: AggregationLimitsGuard,
 ) -> Result<IntermediateAggregationResults, (String, String)> {
-    let coll = DistributedAggregationCollector::from_aggs(req.clone(), ctx_params(b, Default::default()));
+    let coll = DistributedAggregationCollector::from_aggs(req.clone(), ctx_params(b, limits));
     match guarded(|| b.searcher.search(q, &coll)) {
         Ok(Ok(res)) => Ok(res),
         Ok(Err(e)) => Err(("error".into(), e.to_string())),
@@ -231,7 +232,16 @@ struct ReqCase {
     /// the shape is about terms / buckets that lose their documents in some partitions: prefer a
     /// filtering query
     prefer_filter: bool,
+    /// memory limit of every run of this request (None = the default of 500 MB)
+    mem_limit: Option<u64>,
 }
+
+/// The placeholder stream (corpora of at most a few hundred documents, at most three sub
+/// aggregations) runs under a memory limit of 32 MB, far above what a correct answer needs. A
+/// histogram finalised in the wrong unit (nanosecond keys, millisecond interval) fills millions of
+/// gap buckets before the bucket limit is checked; the memory limit, checked up front, is what
+/// bounds the time such an answer takes.
+const PLACEHOLDER_MEM_LIMIT: u64 = 32 << 20;
 
 impl ReqCase {
     fn plain(aggs: Aggs, probe: Probe) -> ReqCase {
@@ -241,6 +251,7 @@ impl ReqCase {
             focus: String::new(),
             prefer_all: false,
             prefer_filter: false,
+            mem_limit: None,
         }
     }
     fn focus(a: ((String, Agg), String), prefer_all: bool) -> ReqCase {
@@ -250,6 +261,7 @@ impl ReqCase {
             focus: a.1,
             prefer_all,
             prefer_filter: false,
+            mem_limit: None,
         }
     }
     fn focus_filtered(a: ((String, Agg), String)) -> ReqCase {
@@ -259,6 +271,7 @@ impl ReqCase {
             focus: a.1,
             prefer_all: false,
             prefer_filter: true,
+            mem_limit: Some(PLACEHOLDER_MEM_LIMIT),
         }
     }
 }
@@ -291,10 +304,9 @@ fn gen_req_case(rng: &mut Rng, corpus: &Corpus, mode: Mode) -> ReqCase {
     // long runs of one value with a long mantissa: more metrics over the buckets of that field
     let wide_runs = !corpus.wide_run_fields().is_empty()
         || (corpus.docs.len() >= 30 && !corpus.absent_numeric_fields().is_empty());
-    let r = g.rng.weighted(&[50, 10, 7, 3, 3, 10, if wide_runs { 30 } else { 8 }, 6, if multi_flush { 60 } else { 5 }, 5, 5]);
+    let r = g.rng.weighted(&[50, 10, 7, 3, 3, 10, if wide_runs { 30 } else { 8 }, 6, if multi_flush { 60 } else { 5 }, 4]);
     match r {
-        9 => ReqCase::focus_filtered(g.gen_terms_mdc0_over_sub()),
-        10 => ReqCase::focus(g.gen_fused_terms_hist(), false),
+        9 => ReqCase::focus(g.gen_fused_terms_hist(), false),
         0 => ReqCase::plain(g.gen_request(), Probe::None),
         1 => ReqCase::plain(vec![g.gen_terms_approx()], Probe::None),
         5 => ReqCase::focus(g.gen_terms_by_key(), false),
@@ -421,6 +433,9 @@ fn probe_tag(p: Probe) -> &'static str {
 /// signature of an Err / panic outcome: the message (digits squashed), never the location
 fn error_signature(corpus: &Corpus, prefix: &str, kind: &str, e: &str, rc: &ReqCase) -> String {
     let msg = e.split(" @ ").next().unwrap_or(e);
+    if let Some(sig) = placeholder_error_sig(&request_tags(corpus, &rc.aggs), e) {
+        return sig.to_string();
+    }
     if msg.contains("postcard deserialize") && has_tophits_without_docvalues(&rc.aggs) {
         // `DocSortValuesAndFields::doc_value_fields` is `skip_serializing_if = "HashMap::is_empty"`,
         // which a non self-describing format cannot read back
@@ -462,6 +477,49 @@ fn error_signature(corpus: &Corpus, prefix: &str, kind: &str, e: &str, rc: &ReqC
     format!("{prefix}/{}{kind}:{}{file}", probe_tag(rc.probe), squash(msg))
 }
 
+const TAG_MISSING_IS_REAL: &str = "terms-numeric-missing-equal-to-a-real-value-with-sub-aggregation/";
+const TAG_PH_HIST: &str = "terms-min_doc_count-0>histogram-on-date-field/";
+const TAG_PH_RANGE: &str = "terms-min_doc_count-0>range-on-date-field/";
+/// `empty_from_req` builds `Histogram { is_date_agg: false }` for a `histogram` request whatever
+/// the column type, and merge_fruits keeps the flag of the left operand: when the placeholder is
+/// on the left the buckets of that term are finalised as a plain numeric histogram (keys in ns
+/// instead of ms, no key_as_string, interval / offset / bounds not scaled: gap filling and
+/// extended bounds then run in the wrong unit - extra buckets, bucket / memory limit errors,
+/// arithmetic overflow)
+const SIG_PH_HIST: &str =
+    "terms-min_doc_count-0/histogram-on-date-field:the-is_date_agg-flag-of-the-empty-placeholder-wins-the-merge";
+/// `IntermediateRangeBucketResult::default()` has `column_type: None` and merge_fruits only merges
+/// the bucket maps
+const SIG_PH_RANGE: &str =
+    "terms-min_doc_count-0/range-on-date-field:from_as_string-to_as_string-lost-when-the-empty-placeholder-is-the-left-operand";
+
+fn request_tags(corpus: &Corpus, aggs: &Aggs) -> BTreeSet<&'static str> {
+    let mut ct = BTreeSet::new();
+    for (_, a) in aggs {
+        cond_tags(a, corpus, &mut ct);
+    }
+    ct
+}
+
+/// the two placeholder defects, recognised by the request condition AND the place / kind of the
+/// deviation (everything else keeps its generic signature)
+fn placeholder_mismatch_sig(ct: &BTreeSet<&'static str>, m: &Mis) -> Option<&'static str> {
+    if ct.contains(TAG_PH_HIST) && m.path.ends_with("terms>hist") && (m.what == "keys" || m.what == "buckets-len") {
+        return Some(SIG_PH_HIST);
+    }
+    if ct.contains(TAG_PH_RANGE) && m.path.ends_with("terms>range") && m.what == "keys" && m.detail.contains("_as_string") {
+        return Some(SIG_PH_RANGE);
+    }
+    None
+}
+
+fn placeholder_error_sig(ct: &BTreeSet<&'static str>, e: &str) -> Option<&'static str> {
+    let unit_mixup = e.contains("bucket limit was exceeded")
+        || e.contains("memory limit was exceeded")
+        || (e.contains("with overflow") && e.contains("bucket/histogram/histogram.rs"));
+    (ct.contains(TAG_PH_HIST) && unit_mixup).then_some(SIG_PH_HIST)
+}
+
 /// conditions of the request (not of the outcome) that select a specific, known defect class
 fn cond_tags(a: &Agg, corpus: &Corpus, out: &mut BTreeSet<&'static str>) {
     if let Agg::Composite { sources, .. } = a {
@@ -498,9 +556,38 @@ fn cond_tags(a: &Agg, corpus: &Corpus, out: &mut BTreeSet<&'static str>) {
             }
         }
     }
-    if let Agg::Terms { missing: Some(m), subs, .. } = a {
+    if let Agg::Terms {
+        min_doc_count: Some(0),
+        subs,
+        ..
+    } = a
+    {
+        // a term of a segment's dictionary without matching document in that segment gets the
+        // placeholder `empty_from_req(sub aggregations)`; only the direct sub aggregations are
+        // concerned (a placeholder has no buckets of its own)
+        for (_, sub) in subs {
+            match sub {
+                Agg::Hist { field, .. } if field.ty() == Ty::Date => {
+                    out.insert(TAG_PH_HIST);
+                }
+                Agg::Range { field, .. } if field.ty() == Ty::Date => {
+                    out.insert(TAG_PH_RANGE);
+                }
+                _ => {}
+            }
+        }
+    }
+    if let Agg::Terms { field, missing: Some(m), subs, .. } = a {
         if m.is_number() && !subs.is_empty() {
             out.insert("terms-numeric-missing-with-sub-aggregation/");
+            // the bucket of the `missing` key receives real documents AND documents without a
+            // value: that is where the doc ids reach the sub aggregations out of order
+            let mv = m.as_f64().unwrap_or(f64::NAN);
+            let some_without = corpus.docs.iter().any(|d| d.get(*field).is_empty());
+            let some_equal = corpus.docs.iter().any(|d| d.get(*field).iter().any(|v| v.num() == Some(mv)));
+            if some_without && some_equal {
+                out.insert(TAG_MISSING_IS_REAL);
+            }
         }
     }
     if let Some(subs) = a.subs() {
@@ -568,6 +655,13 @@ fn report_mismatches(
         let sig = if witness["variant"] == "postcard" && has_tophits_without_docvalues(&rc.aggs) {
             // the misaligned stream can also deserialise "successfully" into different content
             "serialisation/postcard-roundtrip-fails:top_hits-without-docvalue_fields".to_string()
+        } else if let Some(sig) = placeholder_mismatch_sig(&ct, m) {
+            sig.to_string()
+        } else if ct.contains(TAG_MISSING_IS_REAL) && m.path.contains("terms>") {
+            // same defect as the debug_assert in fetch_block above, on a path without that
+            // assertion: the sub aggregation of the bucket that mixes real and missing documents
+            // gets a doc id block that is not ascending and reads the values of other rows
+            "terms-numeric-missing-with-sub-aggregation/unsorted-doc-ids-forwarded-to-sub-aggregation:sub-aggregation-reads-wrong-rows".to_string()
         } else if tophits_truncation {
             // TopHitsSegmentCollector::prepare_max_bucket uses Vec::resize, which truncates the
             // per-bucket state when a later flush of the parent carries a smaller max bucket id
@@ -610,14 +704,16 @@ fn report_mismatches(
 
 fn case_fn(quick: bool, mode: Mode) -> impl Fn(u64, &mut Rng, &mut Report) + Sync {
     move |case: u64, rng: &mut Rng, rep: &mut Report| {
+        let case_t0 = std::time::Instant::now();
         let sch = build_schema();
         // quick: every 10th case is a corpus just beyond a multiple of the flush threshold
         let corpus = if mode == Mode::Main {
             gen_corpus(rng, !quick || case % 6 == 5, quick && case % 10 == 7)
         } else {
-            // the focused streams are about merges, not about volume: small corpora (in thorough
-            // one in nine beyond the flush threshold)
-            gen_corpus(rng, !quick, false)
+            // the focused streams are about merges and collector choice, not about volume: small
+            // corpora (thorough: one in nine of the fused stream beyond the flush threshold, where
+            // the fused collector is fed by several blocks)
+            gen_corpus(rng, !quick && mode == Mode::Fused, false)
         };
         let n = corpus.docs.len();
         let all: Vec<usize> = (0..n).collect();
@@ -758,6 +854,9 @@ fn case_fn(quick: bool, mode: Mode) -> impl Fn(u64, &mut Rng, &mut Report) + Syn
             };
             let mut direct_ok = true;
             let mut reference: Option<Value> = None;
+            // buckets in the unlimited result of every single-index partition (None: it failed)
+            let mut part_buckets: Vec<Option<u64>> = vec![None; parts.len()];
+            let req_t0 = std::time::Instant::now();
             for (pi, part) in parts.iter().enumerate() {
                 rep.eval();
                 rep.count("triples", 1);
@@ -765,12 +864,12 @@ fn case_fn(quick: bool, mode: Mode) -> impl Fn(u64, &mut Rng, &mut Report) + Syn
                 // ---- run
                 let mut finals: Vec<(String, Result<Value, (String, String)>)> = vec![];
                 if part.label != "distributed" {
-                    finals.push(("search".into(), run_single(&part.built[0], tq.as_ref(), &req, Default::default())));
+                    finals.push(("search".into(), run_single(&part.built[0], tq.as_ref(), &req, AggregationLimitsGuard::new(rc.mem_limit, None))));
                 } else {
                     let mut pieces = vec![];
                     let mut failed = None;
                     for b in &part.built {
-                        match run_distributed_piece(b, tq.as_ref(), &req) {
+                        match run_distributed_piece(b, tq.as_ref(), &req, AggregationLimitsGuard::new(rc.mem_limit, None)) {
                             Ok(p) => pieces.push(p),
                             Err(e) => {
                                 failed = Some(e);
@@ -815,7 +914,7 @@ fn case_fn(quick: bool, mode: Mode) -> impl Fn(u64, &mut Rng, &mut Report) + Syn
                             rep.count("merge_variants", 1);
                             let fin = match v {
                                 Err(e) => Err(("error".to_string(), e)),
-                                Ok(inter) => match guarded(|| inter.into_final_result(req.clone(), Default::default())) {
+                                Ok(inter) => match guarded(|| inter.into_final_result(req.clone(), AggregationLimitsGuard::new(rc.mem_limit, None))) {
                                     Ok(Ok(r)) => serde_json::to_value(&r).map_err(|e| ("error".into(), e.to_string())),
                                     Ok(Err(e)) => Err(("error".into(), e.to_string())),
                                     Err(p) => Err(("panic".into(), format!("{} @ {}", p.message, p.location))),
@@ -858,6 +957,9 @@ fn case_fn(quick: bool, mode: Mode) -> impl Fn(u64, &mut Rng, &mut Report) + Syn
                                 rep.count("results_matching_oracle", 1);
                             }
                             nbuckets = nbuckets.max(count_buckets(&rc.aggs, got));
+                            if variant == "search" {
+                                part_buckets[pi] = Some(count_buckets(&rc.aggs, got));
+                            }
                             if pi == 0 {
                                 reference = Some(got.clone());
                             }
@@ -872,14 +974,22 @@ fn case_fn(quick: bool, mode: Mode) -> impl Fn(u64, &mut Rng, &mut Report) + Syn
                         "query": format!("{q:?}"), "result": finals.first().and_then(|f| f.1.as_ref().ok())}));
                 }
             }
+            if std::env::var("C14_SLOW").is_ok() && req_t0.elapsed().as_millis() > 1500 {
+                eprintln!("C14_SLOW {mode:?}#{case} req {ri}: {} ms (case so far {} ms) n={n} {}", req_t0.elapsed().as_millis(), case_t0.elapsed().as_millis(), req_json);
+            }
             // ---- limits: an error or the unlimited result, never something else
             if let Some(reference) = &reference {
                 if rng.chance(1, 2) {
                     let total = count_buckets(&rc.aggs, reference);
                     let limit = rng.range(0, total + 2) as u32;
-                    let part = &parts[rng.urange(0, 2)];
+                    let pidx = rng.urange(0, 2);
+                    let part = &parts[pidx];
+                    // what must not fail is a limit that the unlimited result of the SAME index
+                    // respects: with ties at the `size` cut of a terms aggregation another
+                    // partition may legitimately keep other term buckets, with more sub buckets
+                    let own_total = part_buckets[pidx].unwrap_or(total);
                     rep.count("limit_checks", 1);
-                    let r = run_single(&part.built[0], tq.as_ref(), &req, AggregationLimitsGuard::new(None, Some(limit)));
+                    let r = run_single(&part.built[0], tq.as_ref(), &req, AggregationLimitsGuard::new(rc.mem_limit, Some(limit)));
                     let w = |extra: Value| {
                         let mut w = witness.clone();
                         w["bucket_limit"] = json!(limit);
@@ -891,8 +1001,10 @@ fn case_fn(quick: bool, mode: Mode) -> impl Fn(u64, &mut Rng, &mut Report) + Syn
                         Err((kind, e)) => {
                             if kind == "panic" {
                                 viol(rep, error_signature(&corpus, "limits", &kind, &e, &rc), w(json!(e)));
-                            } else if total <= limit as u64 && direct_ok {
-                                viol(rep, "limits/bucket-limit:error-although-within-limit", w(json!(e)));
+                            } else if total <= limit as u64 && own_total <= limit as u64 && direct_ok {
+                                let sig = placeholder_error_sig(&request_tags(&corpus, &rc.aggs), &e)
+                                    .unwrap_or("limits/bucket-limit:error-although-within-limit");
+                                viol(rep, sig, w(json!(e)));
                             } else {
                                 rep.count("limit_errors_observed", 1);
                                 rep.observe("limit_error", squash(&e));
@@ -909,7 +1021,9 @@ fn case_fn(quick: bool, mode: Mode) -> impl Fn(u64, &mut Rng, &mut Report) + Syn
                                 let mut c = Cmp::new();
                                 c.cmp(&exp, &got);
                                 if !c.out.is_empty() {
-                                    viol(rep, "limits/bucket-limit:different-result-within-limit", w(json!(c.out[0].detail)));
+                                    let sig = placeholder_mismatch_sig(&request_tags(&corpus, &rc.aggs), &c.out[0])
+                                        .unwrap_or("limits/bucket-limit:different-result-within-limit");
+                                    viol(rep, sig, w(json!(c.out[0].detail)));
                                 }
                             }
                         }
@@ -930,8 +1044,10 @@ fn case_fn(quick: bool, mode: Mode) -> impl Fn(u64, &mut Rng, &mut Report) + Syn
                                 let mut c = Cmp::new();
                                 c.cmp(&exp, &got);
                                 if !c.out.is_empty() {
-                                    viol(rep, 
-                                        "limits/memory-limit:silently-different-result",
+                                    let sig = placeholder_mismatch_sig(&request_tags(&corpus, &rc.aggs), &c.out[0])
+                                        .unwrap_or("limits/memory-limit:silently-different-result");
+                                    viol(rep,
+                                        sig,
                                         json!({"witness": witness, "memory_limit": mem, "mismatch": c.out[0].detail}),
                                     );
                                 }
@@ -946,17 +1062,40 @@ fn case_fn(quick: bool, mode: Mode) -> impl Fn(u64, &mut Rng, &mut Report) + Syn
 
 fn main() {
     let ctx = Ctx::from_env("C14", "exploration");
-    let mut rep = run_cases(&ctx, "main", ctx.scale(900, 6000) as u64, case_fn(ctx.quick(), Mode::Main));
-    rep.merge(run_cases(&ctx, "placeholder", ctx.scale(220, 2500) as u64, case_fn(ctx.quick(), Mode::Placeholder)));
-    rep.merge(run_cases(&ctx, "fused", ctx.scale(120, 1200) as u64, case_fn(ctx.quick(), Mode::Fused)));
+    // the two focused streams are short and run first: the soft deadline can only cut the main one
+    let mut rep = Report::new();
+    for (stream, n, mode) in [
+        ("placeholder", ctx.scale(120, 1500), Mode::Placeholder),
+        ("fused", ctx.scale(70, 700), Mode::Fused),
+        ("main", ctx.scale(900, 6000), Mode::Main),
+    ] {
+        let t0 = std::time::Instant::now();
+        rep.merge(run_cases(&ctx, stream, n as u64, case_fn(ctx.quick(), mode)));
+        rep.count(&format!("wall_ms[{stream}]"), t0.elapsed().as_millis() as u64);
+    }
     simple_finish(
         &ctx,
         rep,
-        "a case = one generated corpus (0..6000 docs; f64/i64/u64/date/bool/ip, STRING|FAST and tokenized text fast \
+        "three streams. placeholder (quick 120 / thorough 1500 cases): small corpus x 5-6 requests of the form top-level \
+         terms over a string field with min_doc_count 0 (with or without include / exclude) x 1-3 direct sub aggregations \
+         of every kind (the kinds whose intermediate result carries request or column state - extended_stats with a \
+         non-default sigma, percentiles, cardinality, top_hits, histogram / range / terms over the date field, \
+         date_histogram, composite - twice as often) x a filtering query (id range 45 %, i64 range, term; match-all \
+         8 %) x >= 2 separately searched indexes: a term of a partition's dictionary without matching document there \
+         gets the empty placeholder of its sub aggregations, which is merged as the left or the right operand with the \
+         real result of another partition; every run of this stream has a memory limit of 32 MB (a correct answer \
+         needs far less; it bounds the time of answers that fill gaps in the wrong unit). fused (70 / 700 cases): 5-6 requests of the form top-level terms over a string \
+         field (a full column when the corpus has one) x exactly one histogram / date_histogram leaf over a numeric / \
+         date field (full column preferred) x include / exclude (two thirds; exact values incl. absent ones, prefix / \
+         character class / alternation regular expressions) x hard_bounds (cutting both sides, one side, a single \
+         point, exactly the span, wider than the span, none) x min_doc_count / order / size of the terms x \
+         min_doc_count / offset / extended_bounds of the histogram, terms x buckets mostly below and sometimes above \
+         the 16384 cells of the fused collector. main: \
+         a case = one generated corpus (0..6000 docs; f64/i64/u64/date/bool/ip, STRING|FAST and tokenized text fast \
          fields; missing, multi-valued, negative, fractional, on-boundary values, high-cardinality terms) indexed in 4 \
          partitions (1 segment / k contiguous segments / k' shuffled segments / 1-3 separately searched indexes merged \
-         through DistributedAggregationCollector + merge_fruits in fold, permuted right-nested, pairwise-tree and \
-         postcard round-tripped order) x 3-4 generated request trees (depth <= 3, focus shapes wrapped in a parent \
+         through DistributedAggregationCollector + merge_fruits in fold, reversed fold, permuted right-nested, \
+         pairwise-tree and postcard round-tripped order) x 3-4 generated request trees (depth <= 3, focus shapes wrapped in a parent \
          <= 4) over value_count, sum, min, max, avg, \
          stats, extended_stats, percentiles, cardinality, top_hits, range, histogram, date_histogram, terms, filter \
          (single `filter`; a plural `filters` aggregation does not exist in this version), composite (terms / histogram \
@@ -983,6 +1122,8 @@ fn main() {
             "histogram bucket keys follow the documented f64 formula floor((v-offset)/interval)*interval+offset evaluated in f64",
             "a range aggregation below an empty parent bucket may list every range with doc_count 0 or no bucket at all (both accepted)",
             "percentiles within DDSketch relative accuracy 1 %; cardinality within 5 %+1 (<= 150 distinct) or 12 %+2",
+            "terms include / exclude are generated for string fields without `missing` only; a term is kept when it matches include (if given) and not exclude; regular expressions must match the whole term and are evaluated in the oracle by the `regex` crate on `^(?:pattern)$`",
+            "min_doc_count 0 is generated for top-level terms over string fields only (below a parent bucket the set of zero-count terms depends on which segments instantiated the parent)",
         ],
     );
 }
